@@ -100,6 +100,24 @@ Proof.
   destruct (supported c (fst kv)) eqn:E; cbn [filter]; [rewrite E, IH; reflexivity | exact IH].
 Qed.
 
+(* the same for the filter used on regions (supported + tts:position) *)
+Lemma In_keep_rstyles c m kv : In kv (keep_rstyles c m) <-> In kv m /\ rsupported c (fst kv) = true.
+Proof. unfold keep_rstyles. apply filter_In. Qed.
+Lemma skeys_keep_rstyles c m : skeys (keep_rstyles c m) = filter (rsupported c) (skeys m).
+Proof.
+  unfold skeys, keep_rstyles. induction m as [|[k w] m IH]; cbn [filter map fst]; [reflexivity|].
+  destruct (rsupported c k); cbn [map fst]; rewrite IH; reflexivity.
+Qed.
+Lemma NoDup_keep_rstyles c m : NoDup (skeys m) -> NoDup (skeys (keep_rstyles c m)).
+Proof. intros H. rewrite skeys_keep_rstyles. apply NoDup_filter. exact H. Qed.
+Lemma keep_rstyles_idem c m : keep_rstyles c (keep_rstyles c m) = keep_rstyles c m.
+Proof.
+  unfold keep_rstyles. induction m as [|kv m IH]; cbn [filter]; [reflexivity|].
+  destruct (rsupported c (fst kv)) eqn:E; cbn [filter]; [rewrite E, IH; reflexivity | exact IH].
+Qed.
+Lemma supported_rsupported c p : supported c p = true -> rsupported c p = true.
+Proof. unfold rsupported. intros ->. reflexivity. Qed.
+
 (* ---- trees -------------------------------------------------------------------------------------------------- *)
 Lemma elems_of_map_attrs f e : elems_of (map_attrs f e) = map f (elems_of e).
 Proof.
@@ -161,11 +179,14 @@ Qed.
 (* ---- the region loop ------------------------------------------------------------------------------------------- *)
 (* what one iteration makes of a region *)
 Definition region_done (c : lcd_cfg) (d : doc) (inits : smap) (r r2 : elem) (wm nda : Z) : Prop :=
-  exists st, region_layout c d inits (e_styles (eattrs (style_elem c (anim_elem r)))) = Ok (st, wm, nda) /\
-             r2 = Elem (with_styles (eattrs (style_elem c (anim_elem r))) st) (echildren (style_elem c (anim_elem r))).
-Definition region_fp (r : elem) (wm nda : Z) : fp := (or0 (e_begin (eattrs r)), e_end (eattrs r), wm, nda).
+  exists st, region_layout c d inits (e_styles (eattrs (rstyle_elem c (anim_elem r)))) = Ok (st, wm, nda) /\
+             r2 = Elem (with_styles (eattrs (rstyle_elem c (anim_elem r))) st) (echildren (rstyle_elem c (anim_elem r))).
+(* the fingerprint of a processed region: timing of the source region, writing mode, new displayAlign, and the textAlign
+   of the processed region when it is preserved *)
+Definition region_fp (c : lcd_cfg) (r r2 : elem) (wm nda : Z) : fp :=
+  (or0 (e_begin (eattrs r)), e_end (eattrs r), wm, nda, fp_align c (e_styles (eattrs r2))).
 
-Lemma eattrs_clean c r : eattrs (style_elem c (anim_elem r)) = style_attrs c (anim_attrs (eattrs r)).
+Lemma eattrs_clean c r : eattrs (rstyle_elem c (anim_elem r)) = rstyle_attrs c (anim_attrs (eattrs r)).
 Proof. destruct r as [a cs]. reflexivity. Qed.
 
 (* out is rs processed one by one; a region is aliased exactly when an earlier retained one (or one of `retained`)
@@ -173,11 +194,11 @@ Proof. destruct r as [a cs]. reflexivity. Qed.
 Inductive loop_rel (c : lcd_cfg) (d : doc) (inits : smap) : list (fp * text) -> list elem -> list (elem * option text) -> Prop :=
 | loop_nil ret : loop_rel c d inits ret [] []
 | loop_keep ret r rs r2 wm nda out :
-    region_done c d inits r r2 wm nda -> lookup_fp ret (region_fp r wm nda) = None ->
-    loop_rel c d inits ((region_fp r wm nda, rid (eattrs r)) :: ret) rs out ->
+    region_done c d inits r r2 wm nda -> lookup_fp ret (region_fp c r r2 wm nda) = None ->
+    loop_rel c d inits ((region_fp c r r2 wm nda, rid (eattrs r)) :: ret) rs out ->
     loop_rel c d inits ret (r :: rs) ((r2, None) :: out)
 | loop_alias ret r rs r2 wm nda t out :
-    region_done c d inits r r2 wm nda -> lookup_fp ret (region_fp r wm nda) = Some t ->
+    region_done c d inits r r2 wm nda -> lookup_fp ret (region_fp c r r2 wm nda) = Some t ->
     loop_rel c d inits ret rs out ->
     loop_rel c d inits ret (r :: rs) ((r2, Some t) :: out).
 
@@ -185,12 +206,13 @@ Lemma lcd_regions_rel c d inits : forall rs ret out, lcd_regions c d inits rs re
 Proof.
   induction rs as [|r rs IH]; intros ret out H; cbn [lcd_regions] in H.
   - inversion H. constructor.
-  - destruct (region_layout c d inits (e_styles (eattrs (style_elem c (anim_elem r))))) as [[[st wm] nda]|] eqn:El; cbn [bind] in H; [|discriminate].
-    assert (region_fp r wm nda = (or0 (e_begin (eattrs (style_elem c (anim_elem r)))), e_end (eattrs (style_elem c (anim_elem r))), wm, nda)) as Ef
-      by (rewrite eattrs_clean; reflexivity).
-    assert (rid (eattrs (style_elem c (anim_elem r))) = rid (eattrs r)) as Er by (rewrite eattrs_clean; reflexivity).
+  - destruct (region_layout c d inits (e_styles (eattrs (rstyle_elem c (anim_elem r))))) as [[[st wm] nda]|] eqn:El; cbn [bind] in H; [|discriminate].
+    set (r2 := Elem (with_styles (eattrs (rstyle_elem c (anim_elem r))) st) (echildren (rstyle_elem c (anim_elem r)))) in *.
+    assert (region_fp c r r2 wm nda = (or0 (e_begin (eattrs (rstyle_elem c (anim_elem r)))), e_end (eattrs (rstyle_elem c (anim_elem r))), wm, nda, fp_align c st)) as Ef
+      by (unfold region_fp, r2; rewrite eattrs_clean; reflexivity).
+    assert (rid (eattrs (rstyle_elem c (anim_elem r))) = rid (eattrs r)) as Er by (rewrite eattrs_clean; reflexivity).
     rewrite <- Ef, Er in H.
-    destruct (lookup_fp ret (region_fp r wm nda)) as [t|] eqn:Elk.
+    destruct (lookup_fp ret (region_fp c r r2 wm nda)) as [t|] eqn:Elk.
     + destruct (lcd_regions c d inits rs ret) as [out'|] eqn:Eo; cbn [bind] in H; [|discriminate]. inversion H; subst.
       eapply loop_alias; [exists st; split; [exact El | reflexivity] | exact Elk | apply IH; exact Eo].
     + destruct (lcd_regions c d inits rs _) as [out'|] eqn:Eo; cbn [bind] in H; [|discriminate]. inversion H; subst.
